@@ -192,11 +192,26 @@ theorem unsol_retry_identical (a : Acc) (resp : Resp) (isNull : Bool) (n : Optio
   · exact absurd rfl hretry
   · simp [hd, repeatUnsolicited_eq, emitCb, emit, hbuf, writeAt_zero_idem]
 
-/-- the state `handleRequestFromIdle` answers a repeat in: the stored SELECT's frame id re-based -/
-def rebased (s : OState) (f : Frag) : OState :=
+/-- the state `handleRequestFromIdle` answers a repeat in: the stored SELECT's frame id is re-based exactly if
+    the fragment is a retransmission of that SELECT (function 3, its sequence number, its object octets) that
+    directly follows it (`update_frame_id_on_repeat`); every other field is `s`'s -/
+def rebased (s : OState) (f : Frag) (ctrl : AppCtrl) (func : Nat) (raw : List Nat) : OState :=
   match s.select with
-  | some sel => { s with select := some { sel with frameId := f.id } }
+  | some sel =>
+    if func = 3 ∧ sel.seq = ctrl.seq ∧ (sel.frameId + 1) % 4294967296 = f.id ∧ sel.objects = raw then
+      { s with select := some { sel with frameId := f.id } }
+    else s
   | none => s
+
+/-- `rebased` changes `select` only -/
+theorem rebased_shape (s : OState) (f : Frag) (ctrl : AppCtrl) (func : Nat) (raw : List Nat) :
+    ∃ sel, rebased s f ctrl func raw = { s with select := sel } := by
+  unfold rebased
+  split
+  · split
+    · exact ⟨_, rfl⟩
+    · exact ⟨s.select, rfl⟩
+  · exact ⟨s.select, rfl⟩
 
 theorem writeSolicited_of_iin {a : Acc} {dst : Nat} {r : Resp} {s' : OState} {i1 i2 : Nat}
     (hg : getResponseIin a.1 = some (s', i1, i2)) :
@@ -217,49 +232,135 @@ theorem idleResult_repeat {a : Acc} {f : Frag} {ctrl : AppCtrl} {func : Nat}
     {objects : Except Nat (List ObjHdr)} {raw : List Nat} {last : LastReq}
     (hr : IsRepeat a.1 f ctrl func objects last) :
     idleResult a f ctrl func objects raw =
-      some ((rebased a.1 f, a.2), some ⟨ctrl.seq, f.data, last.response, none⟩) := by
+      some ((rebased a.1 f ctrl func raw, a.2), some (last, true)) := by
+  have hl : (rebased a.1 f ctrl func raw).lastReq = some last := by
+    obtain ⟨sel, h⟩ := rebased_shape a.1 f ctrl func raw
+    rw [h]; exact hr.lastReq
+  have hlast : (⟨ctrl.seq, f.data, last.response, last.series⟩ : LastReq) = last := by
+    rw [← hr.seq, ← hr.frag]
   unfold idleResult
   rw [classify_repeat hr]
-  rfl
+  show some ((rebased a.1 f ctrl func raw, a.2),
+    some ((⟨ctrl.seq, f.data, last.response, (rebased a.1 f ctrl func raw).lastReq.bind (·.series)⟩ : LastReq), true)) = _
+  rw [hl]
+  show some ((rebased a.1 f ctrl func raw, a.2),
+    some ((⟨ctrl.seq, f.data, last.response, last.series⟩ : LastReq), true)) = _
+  rw [hlast]
 
-/-- **C05.2 (`repeat_nonread_idle_reors_iin`, finding D14)**: in the idle path the reply to a retransmitted
-    non-READ request is NOT the stored response verbatim: `writeSolicited` ORs the CURRENT IIN (and possibly
-    the CON bit after a confirm-required broadcast) into the stored header before re-sending it.
-    Exact relation: new iin1 = stored iin1 ||| current iin1, new iin2 = stored iin2 ||| current iin2. -/
-theorem repeat_nonread_idle_reors_iin {a : Acc} {f : Frag} {ctrl : AppCtrl} {func : Nat}
-    {objects : Except Nat (List ObjHdr)} {raw : List Nat} {last : LastReq} {r : Resp}
-    {s' : OState} {i1 i2 : Nat}
-    (hr : IsRepeat a.1 f ctrl func objects last) (hresp : last.response = some r)
-    (hg : getResponseIin (rebased a.1 f) = some (s', i1, i2)) :
-    let r1 : Resp := { r with iin1 := r.iin1 ||| i1, iin2 := r.iin2 ||| i2 }
-    let r2 : Resp := if s'.lastBroadcast = some 1 then { r1 with ctrl := { r1.ctrl with con := true } } else r1
-    ∃ a' sr, handleRequestFromIdle a f ctrl func objects raw = some (a', sr) ∧
-      a'.2 = a.2 ++ [.tx f.src ((writeAt a.1.solBuf 0 (respHeader r2)).take (max 4 r2.size))] ∧
-      a'.1.lastReq = some ⟨ctrl.seq, f.data, some r2, sr⟩ := by
-  intro r1 r2
-  have hsb : s'.solBuf = a.1.solBuf := by
-    obtain ⟨lb, rfl⟩ := getResponseIin_shape hg
-    unfold rebased
-    split <;> rfl
+/-- **C05.2 (`repeat_nonread_idle`, idle path; defect D14 is repaired)**: a retransmitted non-READ request handled
+    from idle is answered by `repeatSolicited` of the STORED response — the stored header written over the current
+    solicited buffer, cut to the stored size; nothing if no response was stored — and NOT through
+    `writeSolicited`: no IIN is evaluated (so `lastBroadcast`, `restart`, `db` are untouched and no current IIN
+    bit or CON bit is OR-ed in), the record of the request (`lastReq`: sequence number, octets, response, and
+    the confirm wait its response opened, which is returned as the series to wait on) stays exactly as it is,
+    and nothing is executed.  The state afterwards is `rebased …` (only a retransmission of the stored SELECT
+    moves that select's frame id, see `Dnp3.Proofs.C04.step_select_change`) with the header written into
+    `solBuf`. -/
+theorem repeat_nonread_idle {a : Acc} {f : Frag} {ctrl : AppCtrl} {func : Nat}
+    {objects : Except Nat (List ObjHdr)} {raw : List Nat} {last : LastReq}
+    (hr : IsRepeat a.1 f ctrl func objects last) :
+    ∃ a', handleRequestFromIdle a f ctrl func objects raw = some (a', last.series) ∧
+      a'.2 = a.2 ++ (match last.response with
+        | some r => [.tx f.src ((writeAt a.1.solBuf 0 (respHeader r)).take (max 4 r.size))]
+        | none => []) ∧
+      a'.1 = { rebased a.1 f ctrl func raw with
+                solBuf := match last.response with
+                  | some r => writeAt a.1.solBuf 0 (respHeader r)
+                  | none => a.1.solBuf } ∧
+      a'.1.lastReq = a.1.lastReq ∧ a'.1.lastBroadcast = a.1.lastBroadcast ∧ a'.1.restart = a.1.restart ∧
+      a'.1.db = a.1.db ∧ a'.1.deferred = a.1.deferred ∧ a'.1.mode = a.1.mode ∧
+      ∀ o ∈ a'.2, o ∈ a.2 ∨ isExec o = false := by
+  obtain ⟨sel, hsh⟩ := rebased_shape a.1 f ctrl func raw
   rw [handleRequestFromIdle_eq, idleResult_repeat hr]
-  unfold idleTail
-  simp only [hresp]
-  rw [writeSolicited_of_iin (a := (rebased a.1 f, a.2)) hg]
-  refine ⟨_, _, rfl, ?_, rfl⟩
-  rw [repeatSolicited_eq, hsb]
+  cases hresp : last.response with
+  | none =>
+    simp only [idleTail, hresp]
+    refine ⟨_, rfl, by simp, ?_, ?_, ?_, ?_, ?_, ?_, ?_, ?_⟩
+    all_goals first
+      | (simp only [hsh]; done)
+      | (simp only [hsh, hr.lastReq]; done)
+      | (intro o ho; exact .inl ho)
+  | some r =>
+    simp only [idleTail, hresp, if_true, repeatSolicited_eq]
+    refine ⟨_, rfl, by simp only [hsh], ?_, ?_, ?_, ?_, ?_, ?_, ?_, ?_⟩
+    all_goals first
+      | (simp only [hsh]; done)
+      | (simp only [hsh, hr.lastReq]; done)
+      | (intro o ho
+         rcases List.mem_append.mp ho with h | h
+         · exact .inl h
+         · simp at h; subst h; exact .inr rfl)
+
+/-- **C05.2 (`repeat_nonread_same_bytes_idle`)**: PROVIDED the solicited buffer still is what the original
+    transmission left (`solBuf = writeAt b0 0 (respHeader r)`, `b0` the buffer the response `r` was originally sent
+    from by `repeatSolicited`/`writeSolicited`), the octets re-sent from idle are byte-for-byte the octets sent
+    originally; the buffer and the stored request are left as they were, so the statement applies again to a
+    further repeat. -/
+theorem repeat_nonread_same_bytes_idle {a : Acc} {f : Frag} {ctrl : AppCtrl} {func : Nat}
+    {objects : Except Nat (List ObjHdr)} {raw : List Nat} {last : LastReq} (r : Resp)
+    (b0 : List Nat) (a00 : Acc) (dst0 : Nat)
+    (hr : IsRepeat a.1 f ctrl func objects last) (hresp : last.response = some r)
+    (horig : a00.1.solBuf = b0)                                -- the original transmission was from `b0`
+    (hbuf : a.1.solBuf = (repeatSolicited a00 dst0 r).1.solBuf)  -- and the buffer was not overwritten since
+    : ∃ bytes a', (repeatSolicited a00 dst0 r).2 = a00.2 ++ [.tx dst0 bytes] ∧
+        handleRequestFromIdle a f ctrl func objects raw = some (a', last.series) ∧
+        a'.2 = a.2 ++ [.tx f.src bytes] ∧ a'.1.solBuf = a.1.solBuf ∧ a'.1.lastReq = a.1.lastReq := by
+  obtain ⟨a', h1, h2, h3, h4, -⟩ := repeat_nonread_idle (raw := raw) hr
+  obtain ⟨sel, hsh⟩ := rebased_shape a.1 f ctrl func raw
+  refine ⟨(writeAt b0 0 (respHeader r)).take (max 4 r.size), a', by rw [repeatSolicited_eq, horig], h1, ?_, ?_, h4⟩
+  · rw [h2, hresp]
+    dsimp only
+    rw [hbuf, repeatSolicited_eq, horig]
+    dsimp only
+    rw [writeAt_zero_idem]
+  · rw [h3, hresp, hsh]
+    dsimp only
+    rw [hbuf, repeatSolicited_eq, horig]
+    dsimp only
+    rw [writeAt_zero_idem]
 
 -- BEGIN EVAL (concrete evaluation of the model, including the current `Db` component)
-/-- D14 on a concrete trace (this EVALUATES the model including the current `Db` component):
-    DELAY MEASURE seq 0, then a broadcast RECORD CURRENT TIME, then DELAY MEASURE seq 0 again: the repeat is
-    answered with IIN1 = 0x81 (broadcast bit OR-ed in) while the original answer carried IIN1 = 0x80. -/
+/-- the former D14 trace: DELAY MEASURE seq 0, then a broadcast RECORD CURRENT TIME, then DELAY MEASURE seq 0
+    again (a retransmission, handled from idle) -/
 def d14Inputs : List OInput := [.rx 1 1024 [0xC0, 23], .rx 1 0xFFFF [0xC1, 24], .rx 1 1024 [0xC0, 23]]
 
-theorem repeat_nonread_idle_reors_iin_counterexample :
+/-- **D14 regression** (this EVALUATES the model including the current `Db` component): the repeat is answered
+    with the SAME octets as the original request (IIN1 = 0x80 both times; before the repair the broadcast bit
+    IIN1.0 was OR-ed into the repeated response, 0x81), and nothing is executed. -/
+theorem repeat_nonread_idle_verbatim_example :
     (Outstation.run {} (Outstation.start {} 10).1 d14Inputs).2.map txFrags =
-      [[(1, [192, 129, 128, 0, 52, 2, 7, 1, 0, 0])], [], [(1, [192, 129, 129, 0, 52, 2, 7, 1, 0, 0])]] ∧
+      [[(1, [192, 129, 128, 0, 52, 2, 7, 1, 0, 0])], [], [(1, [192, 129, 128, 0, 52, 2, 7, 1, 0, 0])]] ∧
     (Outstation.run {} (Outstation.start {} 10).1 d14Inputs).2.map (fun l => (l.filter isExec).length) = [0, 0, 0] := by
   decide +kernel
+
+/-- finding D31 (the residue of D14): DISABLE UNSOLICITED seq 0 whose object header is truncated (`3C 02`), then a
+    broadcast RECORD CURRENT TIME, then the same octets again -/
+def d27Inputs : List OInput :=
+  [.rx 1 1024 [0xC0, 21, 0x3C, 0x02], .rx 1 0xFFFF [0xC1, 24], .rx 1 1024 [0xC0, 21, 0x3C, 0x02]]
+
+/-- **`repeat_malformed_reanswered_counterexample` (finding D31)**: the C05.2 statements above are about repeats
+    whose objects parse (`IsRepeat.objectsOk`).  A byte-identical repeat of a request whose OBJECTS do not parse is
+    classified `.malformed` before the duplicate check (`repeat_malformed_not_classified`), so it is answered
+    afresh: the second reply carries the CURRENT IIN1 (0x81: the broadcast bit) where the original carried 0x80.
+    Nothing is executed either time. -/
+theorem repeat_malformed_reanswered_counterexample :
+    (Outstation.run {} (Outstation.start {} 10).1 d27Inputs).2.map txFrags =
+      [[(1, [192, 129, 128, 4])], [], [(1, [192, 129, 129, 4])]] ∧
+    (Outstation.run {} (Outstation.start {} 10).1 d27Inputs).2.map (fun l => (l.filter isExec).length) = [0, 0, 0] := by
+  decide +kernel
 -- END EVAL
+
+/-- exact characterisation of finding D31: whatever the last recorded request is, a unicast non-CONFIRM fragment
+    whose objects do not parse is classified `.malformed` — never as a repeat -/
+theorem repeat_malformed_not_classified (s : OState) (f : Frag) (ctrl : AppCtrl) (func : Nat) (e : Nat)
+    (hf : func ≠ 0) (hb : f.broadcast = none) :
+    classify s f ctrl func (.error e) = .malformed e := by
+  unfold classify
+  simp [hf, hb]
+
+example : classify (Outstation.start {} 10).1 ⟨0, 1, none, [0xC0, 21, 0x3C, 0x02]⟩ (AppCtrl.ofNat 0xC0) 21 (.error 4) =
+    .malformed 4 :=
+  repeat_malformed_not_classified _ _ _ _ _ (by decide) rfl
 
 /-- the model never writes `unsolBuf` while it stays in the unsolicited confirm wait: -/
 structure KeepsUnsol (a a' : Acc) : Prop where
@@ -285,12 +386,14 @@ theorem unsolWaitOnFragment_keeps_unsolBuf (a : Acc) (resp : Resp) (isNull : Boo
       all_goals exact ⟨rfl, rfl⟩
     cases p with
     | nothing => dsimp only; exact .inr ⟨hs.1, .inl hs.2⟩
-    | error src seq =>
+    | error src bc seq =>
       dsimp only
       split
       · exact .inr ⟨hs.1, .inr rfl⟩
       · rename_i a' hw
         unfold writeErrorResponse at hw
+        split at hw
+        · simp only [Option.some.injEq] at hw; subst hw; exact .inr ⟨hs.1, .inl hs.2⟩
         split at hw
         · simp only [Option.some.injEq] at hw; subst hw; exact .inr ⟨hs.1, .inl hs.2⟩
         · split at hw
@@ -377,8 +480,19 @@ example : parseRequest [0xC0, 23] = .request (AppCtrl.ofNat 0xC0) 23 (.ok []) []
 example : exS.deferred = none := rfl
 example : exS.cfg.anymaster = true ∨ exF.src = exS.cfg.master := .inr rfl
 
-/-- `unsol_retry_identical` / `repeat_nonread_same_bytes_unsolwait`: the "buffer not overwritten" hypothesis
-    holds e.g. directly after the original transmission -/
+-- `repeat_nonread_idle` applies to `exS`, `exF` (the retransmission handled from idle)
+example := repeat_nonread_idle (a := (exS, [])) (f := exF) (ctrl := AppCtrl.ofNat 0xC0) (func := 23)
+  (objects := .ok []) (raw := []) (last := ⟨0, [0xC0, 23], some (emptySolicited 0 0), none⟩)
+  ⟨rfl, by decide, rfl, by decide, by decide, rfl, ⟨[], rfl⟩⟩
+-- and so does `repeat_nonread_same_bytes_idle`, in the state right after the original transmission from `exS`
+example := repeat_nonread_same_bytes_idle
+  (a := ((repeatSolicited (exS, []) 1 (emptySolicited 0 0)).1, [])) (f := exF) (ctrl := AppCtrl.ofNat 0xC0) (func := 23)
+  (objects := .ok []) (raw := []) (last := ⟨0, [0xC0, 23], some (emptySolicited 0 0), none⟩)
+  (emptySolicited 0 0) exS.solBuf (exS, []) 1
+  ⟨rfl, by decide, rfl, by decide, by decide, rfl, ⟨[], rfl⟩⟩ rfl rfl rfl
+
+/-- `unsol_retry_identical` / `repeat_nonread_same_bytes_unsolwait` / `repeat_nonread_same_bytes_idle`: the
+    "buffer not overwritten" hypothesis holds e.g. directly after the original transmission -/
 example (a00 : Acc) (resp : Resp) :
     (repeatUnsolicited a00 resp).1.unsolBuf = (repeatUnsolicited a00 resp).1.unsolBuf := rfl
 example : (some 3 : Option Nat) ≠ some 0 := by decide
